@@ -49,6 +49,26 @@ def _chain_language(ctx):
               f"in two by TractParser", key='RX-LANG|aliquot_unpacker_regex|chains', witness=repr(cex))
 
 
+def ilots_after_l(ctx):
+    """the integer of a lot is taken from the part after the LAST 'L': a lot
+    division ('N2 of L7') has digits and letters of its own in front"""
+    il = ctx.repo.func('Tract.ilots')
+    src = norm(il.node.body[-1]).replace('"', "'")
+    after_l = any(x in src for x in (".split('L')[-1]", ".rsplit('L', 1)[-1]", ".rpartition('L')[2]", ".rpartition('L')[-1]"))
+    all_digits = any(isinstance(c, (ast.GeneratorExp, ast.ListComp)) and isinstance(c.generators[0].iter, ast.Name)
+                     and any(isinstance(x, ast.Attribute) and x.attr in ('isdigit', 'isdecimal', 'isnumeric') for x in ast.walk(c))
+                     for c in ast.walk(il.node)) or "re.sub('\\\\D'" in src or "re.sub('[^0-9]'" in src
+    prefix_only = any(isinstance(c, ast.Call) and isinstance(c.func, ast.Attribute)
+                      and c.func.attr in ('lstrip', 'strip', 'removeprefix') for c in ast.walk(il.node)) \
+        or any(isinstance(c, ast.Subscript) and isinstance(c.slice, ast.Slice) and norm(c.slice) in ('1:',) for c in ast.walk(il.node))
+    ctx.tri(after_l, (all_digits or prefix_only) and not after_l, 'DEFUSE', "ilots reads the number after the 'L' only",
+            detail_bad=("ilots collects every digit of the lot string: the '2' of a half division ('N2 of L7') ends up in "
+                        "the lot number (27), so ilots no longer mirrors lots" if all_digits else
+                        "ilots only removes a leading 'L': for a lot division ('N2 of L1') int() gets 'N2 of L1' and raises "
+                        "ValueError, also from every export that includes 'ilots'"),
+            key="DEFUSE|Tract.ilots|" + ('digits' if all_digits else 'prefix'), where=il.loc)
+
+
 def check(ctx):
     ctx.consult('tract/tract_parse.py', 'tract/tract.py', 'unpack/unpackers.py', 'rgxlib/lots.py', 'rgxlib/aliquots.py')
     fi = ctx.repo.func('TractParser.parse')
@@ -122,17 +142,7 @@ def check(ctx):
     ctx.shape(norm(lq.node.body[-1]) == 'return self.lots + self.qqs', 'DEFUSE', 'lots_qqs == lots + qqs')
     il = ctx.repo.func('Tract.ilots')
     ctx.shape('for lt in self.lots' in norm(il.node.body[-1]), 'DEFUSE', 'ilots mirrors lots element-wise')
-    # the integer is taken from the part after the 'L' only: a lot division
-    # ('N2 of L7') contains digits of its own
-    src = norm(il.node.body[-1]).replace('"', "'")
-    after_l = any(x in src for x in (".split('L')[-1]", ".rsplit('L', 1)[-1]", ".rpartition('L')[2]", ".rpartition('L')[-1]"))
-    all_digits = any(isinstance(c, (ast.GeneratorExp, ast.ListComp)) and isinstance(c.generators[0].iter, ast.Name)
-                     and any(isinstance(x, ast.Attribute) and x.attr in ('isdigit', 'isdecimal', 'isnumeric') for x in ast.walk(c))
-                     for c in ast.walk(il.node)) or "re.sub('\\\\D'" in src or "re.sub('[^0-9]'" in src
-    ctx.tri(after_l, all_digits and not after_l, 'DEFUSE', "ilots reads the number after the 'L' only",
-            detail_bad="ilots collects every digit of the lot string: the '2' of a half division ('N2 of L7') ends up in "
-                       "the lot number (27), so ilots no longer mirrors lots",
-            key="DEFUSE|Tract.ilots|digits", where=il.loc)
+    ilots_after_l(ctx)
     ctx.attempt(_dups)
     ctx.attempt(_unpack_lots)
     ctx.attempt(_acreage)
@@ -141,6 +151,8 @@ def check(ctx):
     ctx.attempt(common.embedded_case_consistency, modules=('rgxlib.lots', 'rgxlib.aliquots'))
     ctx.attempt(_chain_language)
     ctx.attempt(half_plus_q_contexts, ELEMENT_SEPARATORS)
+    ctx.attempt(common.parallel_shapes, [f for f in ctx.repo.funcs.values() if f.module.name.endswith(('tract.tract_parse', 'tract.tract', 'unpack.unpackers'))])
+    ctx.attempt(common.config_words, plss=('suppress_lot_divs', 'parse_qq'), tract=('suppress_lot_divs', 'parse_qq'))
 
 
 def _dups(ctx):
